@@ -56,7 +56,8 @@ InCtx(cell, x, y) == [cell EXCEPT !.x = x, !.y = y]
 (* statement context, over a REDUCED set of type pairs (i32, u8, usize,    *)
 (* bool, a pointer, an array) -- not the full matrix.                      *)
 (***************************************************************************)
-XContexts == {"paren", "elem", "member", "arg", "index", "castop", "binop", "ret", "cond"}
+\* castsame: the operand of an IDENTITY cast (`(e) as T` where T is the type the expression has for the compiler)
+XContexts == {"paren", "elem", "member", "arg", "index", "castop", "castsame", "binop", "ret", "cond"}
 YContexts == {"block", "loop", "then", "else", "elif_then", "elif_else", "elif2", "label"}
 ExprKinds == {"bin", "un", "as", "cast", "arg", "arg2", "argn"}
 
@@ -93,6 +94,7 @@ XOK(x, t) == CASE x = "paren" -> TRUE
                [] x \in {"elem", "member", "arg", "ret"} -> Passable(t)
                [] x = "index" -> t = P("usize")
                [] x = "castop" -> IsInt(t) \/ t = Bool
+               [] x = "castsame" -> IsInt(t)
                [] x = "binop" -> IsInt(t)
                [] x = "cond" -> IsPrim(t)
 
@@ -238,7 +240,14 @@ PoisonCells == {[Cell("init", "", s, 0, d, 0) EXCEPT !.v = vv] : s \in {I32, U8,
 \* --- a return value in a function without return type (E330) -----------------------------------------
 VoidCells == {Cell("ret", "", t, 0, <<"void">>, 0) : t \in FT \cup {PTR}}
 
-AuditCells == FormCells \cup PreCells \cup PosCells \cup CalleeCells \cup WordCells \cup LenCells \cup ShapeCells \cup VoidCells
+\* --- forms x contexts: an operand that is a literal / a call / a named constant, with the whole construct standing as the
+\* operand of a cast (to another type, to its own type), in parentheses, as an operand, as an argument
+FormCtxCells ==
+    {[q[1] EXCEPT !.x = q[2]] :
+        q \in {p \in {r \in FormCells : r.ctx = "bin" /\ r.fa \in {"var", "lit", "call", "const"} /\ r.fb \in {"var", "lit", "call", "const"}}
+                       \X {"castop", "castsame", "paren", "binop", "arg"} : XOK(p[2], TypeInContext(p[1]))}}
+
+AuditCells == FormCtxCells \cup FormCells \cup PreCells \cup PosCells \cup CalleeCells \cup WordCells \cup LenCells \cup ShapeCells \cup VoidCells
                   \cup BigLenCells \cup NameCells \cup FlagCells \cup PoisonCells
 
 (***************************************************************************)
@@ -277,6 +286,7 @@ Parts == <<
     PathAssign,
     {cl \in FormCells : cl.fb = "var"},
     {cl \in FormCells : cl.fb # "var"},
+    FormCtxCells,
     PreCells,
     PosCells \cup CalleeCells \cup VoidCells,
     WordCells,
